@@ -355,10 +355,13 @@ func (st *StateDB) updateValidator(val *Validator) {
 }
 
 func (st *StateDB) deleteValidator(val *Validator) {
+	if !val.deleted {
+		// a record removed with RemoveValidator has already been taken out of the statistics
+		st.decrValidatorsStat(val)
+	}
 	val.deleted = true
 	st.deleteStakingData(val.MainAddress(), validatorFlag)
 	st.validatorIndex.Delete(val.MainAddress())
-	st.decrValidatorsStat(val)
 }
 
 func (st *StateDB) getValidator(mainAddress common.Address) *Validator {
